@@ -76,13 +76,13 @@ def check(case):
     diff = simcheck.frames_equal(df_a, df_b)
     bucket = "agree:entry_points"
     if diff:
-        vfull = simcheck.vfull_list(ref, [np.asarray(a) for a in sol])
-        ma, _, _ = simcheck.check_rows(spec, ref, df_a, vfull, N)
-        mb, _, _ = simcheck.check_rows(spec, ref, df_b, vfull, N)
-        if ma or mb or spec.stochastic_states() is None:
+        if sorted(df_a.columns) != sorted(df_b.columns) or len(df_a) != len(df_b):
             msgs += [f"solve_and_simulate != solve->simulate: {d}" for d in diff[:2]]
         else:
-            cnt["ties"] += 1
+            vfull = simcheck.vfull_list(ref, [np.asarray(a) for a in sol])
+            m, ties = simcheck.explain_difference(spec, ref, df_a, df_b, vfull, [(i, i) for i in range(N)])
+            cnt["ties"] += ties
+            msgs += [f"solve_and_simulate != solve->simulate: {x}" for x in m[:2]]
     # (1) on-grid rows equal the solved array entries
     if not msgs:
         bucket = "agree:value_vs_solution"
